@@ -5,6 +5,29 @@ From Coq Require Import Lia.
 From RM Require Import C08.Model C11.Model C11.Prims Gen.C11Src.
 Open Scope Z_scope.
 
+(* ---- memory_range: the `- 1` cannot trap and Range::new's assertion cannot fire, for the parser's integer types *)
+Lemma src_memory_range_gen p base size :
+  0 <= base -> 0 <= size ->
+  (if size =? 0 then Ret None
+   else match checked_add 64 base size with
+        | Some x2 => do x3 <- chk_sub p 64 PANIC_SUB x2 1; do x4 <- range_new base x3; Ret (Some x4)
+        | None => Ret None
+        end) = Ret (mk_range base size).
+Proof.
+  intros Hb Hs. unfold mk_range. destruct (size =? 0) eqn:E0; [reflexivity|]. apply Z.eqb_neq in E0.
+  unfold checked_add. cbv zeta. destruct (base + size <? 2 ^ 64) eqn:E1; [|reflexivity]. apply Z.ltb_lt in E1.
+  unfold chk_sub, chk. replace ((0 <=? base + size - 1) && (base + size - 1 <? 2 ^ 64)) with true
+    by (symmetry; apply andb_true_iff; split; [apply Z.leb_le|apply Z.ltb_lt]; lia).
+  cbn [obind]. unfold range_new. replace (base + size - 1 <? base) with false by (symmetry; apply Z.ltb_ge; lia).
+  reflexivity.
+Qed.
+Lemma src_func_memory_range_eq p f :
+  0 <= fn_addr f -> 0 <= fn_size f -> src_func_memory_range p f = Ret (mk_range (fn_addr f) (fn_size f)).
+Proof. intros Ha Hs. unfold src_func_memory_range. exact (src_memory_range_gen p _ _ Ha Hs). Qed.
+Lemma src_win_memory_range_eq p w :
+  0 <= w_addr w -> 0 <= w_size w -> src_win_memory_range p w = Ret (win_range w).
+Proof. intros Ha Hs. unfold src_win_memory_range, win_range. exact (src_memory_range_gen p _ _ Ha Hs). Qed.
+
 Definition giad_tuple (e : inl_rec) : Z * Z * Z * Z := (i_cfile e, i_cline e, i_addr e, i_origin e).
 
 Lemma src_get_inlinee_at_depth_eq p f depth addr :
@@ -220,6 +243,8 @@ Qed.
 
 (* everything the compiler produced, in one statement *)
 Lemma compiled_source_tie :
+  (forall p f, 0 <= fn_addr f -> 0 <= fn_size f -> src_func_memory_range p f = Ret (mk_range (fn_addr f) (fn_size f))) /\
+  (forall p w, 0 <= w_addr w -> 0 <= w_size w -> src_win_memory_range p w = Ret (win_range w)) /\
   (forall p f depth addr, src_get_inlinee_at_depth p f depth addr =
      do r <- get_inlinee_at_depth (fn_inls f) depth addr; Ret (option_map giad_tuple r)) /\
   (forall p f addr, src_get_outermost_sourceloc p f addr =
@@ -235,6 +260,7 @@ Lemma compiled_source_tie :
      fill_symbol p st mbase instr <> OutOfFuel ->
      src_fill_symbol p fuel st mbase instr = fill_symbol p st mbase instr).
 Proof.
+  split; [exact src_func_memory_range_eq|]. split; [exact src_win_memory_range_eq|].
   split; [exact src_get_inlinee_at_depth_eq|]. split; [exact src_get_outermost_sourceloc_eq|].
   split; [exact src_get_innermost_sourceloc_eq|]. split; [exact src_find_nearest_public_eq|].
   split; [exact src_fill_symbol_loop_eq|]. exact src_fill_symbol_eq.
